@@ -145,6 +145,19 @@ template <class A> static Bytes inc_session_encrypt_t(const Bytes &key, const By
     A::init(s, n.p, k.p);
     std::vector<uint64_t> one; if (!g_warmup.empty()) one.push_back(g_warmup.size());
     lib::inc_encrypt_packet<A>(s, ad, g_warmup, one, false);
+    if (pt.size() % 3 == 1) {
+        // instead of simply continuing the session: re-initialise the used object for (nonce, key), passing NULL for an
+        // all-zero nonce / key as the header documents, after a stretch under another key
+        Bytes k2 = key; k2[0] ^= 0x5a;
+        Bytes n2 = nonce; n2[3] ^= 0xff;
+        Buf kb2(k2), nb2(n2), nb(nonce);
+        A::reinit(s, nb2.p, kb2.p);
+        lib::inc_encrypt_packet<A>(s, ad, g_warmup, one, false);
+        bool zn = true, zk = true;
+        for (uint8_t b : nonce) if (b) zn = false;
+        for (uint8_t b : key) if (b) zk = false;
+        A::reinit(s, zn ? nullptr : nb.p, zk ? nullptr : k.p);
+    }
     Bytes out = lib::inc_encrypt_packet<A>(s, ad, pt, chunks, false);
     A::free_(s);
     xfree(s, sizeof(typename A::state_t));
